@@ -16,6 +16,9 @@ FALSE_CON = Lin.c(1)
 ISIZE_MAX = 2 ** 63 - 1
 
 
+ALLFRAMES = os.environ.get('VERIF_ALLFRAMES', '1') == '1'
+
+
 class BudgetExceeded(Exception):
     """the wall-clock budget of one analysis ran out (not an AnalysisError: it must not be swallowed as an imprecise block)"""
 
@@ -1908,7 +1911,7 @@ class Interp:
             if t is None and v[0] == 'int' and v[1].is_const():
                 # a named value pinned to a constant by a branch (`match h_len { 1 => .. }`, a table lookup split per entry) keeps
                 # its worlds apart - in the frame that branched and in the helpers it calls meanwhile
-                fr_ = frame if root[1] == frame.fid else self.frames.get(root[1])
+                fr_ = frame if root[1] == frame.fid else (self.frames.get(root[1]) if ALLFRAMES else None)
                 if fr_ is not None and root[2] in fr_.single_assign:
                     t = ('i', v[1].const)
             if t is not None:
